@@ -1,7 +1,7 @@
 SPECIFICATION GSpec
 CONSTANTS
   Dev <- DevIdeal
-  B = 2
+  B = 3
   RecMax = 1
   Bodies <- BodiesTight
   Kinds <- KindsAll
